@@ -26,6 +26,101 @@ from vcore import pyres  # noqa: F401  (kept for symmetry with the other checks)
 
 SUCCESS = 0
 MP_PROP = 0x0B
+EXT_MEM_IDS = (1, 4, 8, 9, 10, 16, 0x100, 0x101, 0x110)
+
+
+def clamp_id(m):
+    """protocol: address-based commands on mapped memories carry id 0 for ids 1..255 (SPSDK clamps on purpose), other ids unchanged"""
+    return 0 if 1 <= m <= 255 else m
+
+
+def expected_commands(op):
+    """The command packets (tag, parameter words) the protocol defines for one API call - written from the protocol description,
+    independent of the Lean model.  None = not a fixed list (chunked read: checked structurally)."""
+    k = op["op"]
+    u = lambda x: x & 0xFFFFFFFF  # noqa: E731
+    if k == "flash_erase_all":
+        return [(0x01, [op["mem_id"]])]            # whole-memory command: the id selects the memory, carried as given
+    if k == "flash_erase_all_unsecure":
+        return [(0x0D, [])]
+    if k == "configure_memory":
+        return [(0x11, [op["mem_id"], op["addr"]])]  # the id selects the memory to configure, carried as given
+    if k == "flash_erase_region":
+        return [(0x02, [op["addr"], op["n"], clamp_id(op["mem_id"])])]
+    if k == "fill_memory":
+        return [(0x05, [op["addr"], op["n"], op["pattern"]])]
+    if k == "write_memory":
+        return [(0x04, [op["addr"], op["n"], clamp_id(op["mem_id"])])]
+    if k == "receive_sb_file":
+        return [(0x08, [op["n"]])]
+    if k == "get_property":
+        return [(0x07, [op["tag"], op["index"]])]
+    if k == "set_property":
+        return [(0x0C, [op["tag"], op["value"]])]
+    if k == "execute":
+        return [(0x09, [op["addr"], op["arg"], op["sp"]])]
+    if k == "call":
+        return [(0x0A, [op["addr"], op["arg"]])]
+    if k == "reliable_update":
+        return [(0x12, [op["addr"]])]
+    if k == "reset":
+        return [(0x0B, [])]
+    if k == "flash_read_resource":
+        return [(0x10, [op["addr"], op["n"], op["option"]])]
+    if k == "flash_read_once":
+        return [(0x0F, [op["index"], op["count"]])]
+    if k == "efuse_read_once":
+        return [(0x0F, [op["index"], 4])]
+    if k == "flash_program_once":
+        d = op_data(op)
+        d += b"\0" * (-len(d) % 4)
+        return [(0x0E, [op["index"], op["n"]] + list(struct.unpack(f"<{len(d) // 4}I", d)))]
+    if k == "efuse_program_once":
+        return [(0x0E, [op["index"], 4, op["value"]])] + ([(0x0F, [op["index"] & 0xFFFFFF, 4])] if op["verify"] else [])
+    if k == "kp_enroll":
+        return [(0x15, [0])]
+    if k == "kp_set_intrinsic_key":
+        return [(0x15, [2, op["key_type"], op["key_size"]])]
+    if k == "kp_write_nonvolatile":
+        return [(0x15, [3, op["mem_id"]])]
+    if k == "kp_read_nonvolatile":
+        return [(0x15, [4, op["mem_id"]])]
+    if k == "kp_set_user_key":
+        return [(0x15, [1, op["key_type"], op["n"]])]
+    if k == "kp_write_key_store":
+        return [(0x15, [5, 0, op["n"]])]
+    if k == "kp_read_key_store":
+        return [(0x15, [6])]
+    if k == "read_memory":
+        return None
+    return []   # open, load_image: no command at all
+
+
+def command_oracle(op, evs, success, cfg):
+    """-> list of violations: the commands the device RECEIVED for this API call vs the protocol's expectation."""
+    k = op["op"]
+    own = [(e["tag"], e["params"]) for e in evs if not (e["tag"] == 7 and e["params"][:1] == [MP_PROP] and k != "get_property")]
+    viol = []
+    exp = expected_commands(op)
+    if exp is None:
+        # read_memory: one READ_MEMORY (un-chunked) or consecutive chunks; ids clamped, addresses consecutive from the caller's address
+        a, total = op["addr"], 0
+        for tag, ps in own:
+            if tag != 0x03 or len(ps) != 3 or ps[0] != a + total or ps[2] != clamp_id(op["mem_id"]) or total + ps[1] > op["n"]:
+                viol.append(("read_memory sent a command packet the protocol does not define for this call (tag / address sequence / length / memory id)",
+                             {"received": [tag, ps], "call": {"addr": a, "n": op["n"], "mem_id": op["mem_id"]}}))
+                break
+            total += ps[1]
+        if success and own and total != op["n"]:
+            viol.append(("read_memory reports success but the READ_MEMORY commands do not cover exactly the requested range", {"covered": total, "requested": op["n"]}))
+        return viol
+    if any(p >= 1 << 32 for _t, ps in exp for p in ps):
+        return viol  # unencodable argument: nothing may be sent (checked elsewhere)
+    if own != exp[:len(own)] or (success and own != exp):
+        viol.append((f"{k}: the command packets the device received are not the ones the protocol defines for this call "
+                     "(command tag / parameter that selects the target: memory id, property tag, key operation, fuse index, address)",
+                     {"received": own[:3], "expected": exp[:3]}))
+    return viol
 SIMPLE = {"fill_memory", "flash_erase_region", "flash_erase_all", "execute", "call", "flash_erase_all_unsecure",
           "configure_memory", "reliable_update", "set_property", "kp_enroll", "kp_set_intrinsic_key", "kp_write_nonvolatile",
           "kp_read_nonvolatile", "flash_program_once", "efuse_program_once"}
@@ -433,6 +528,9 @@ class PyDev:
         self.max_data_packet = 0
         self.bad_packets = 0
         self.events = []  # (kind, info) per command, in order: what the device did
+        # memories selected by a memory id (QuadSPI 1, SEMC NOR 8, FlexSPI NOR 9, ..., SEMC NAND 0x100, SPI NAND 0x101): what a
+        # whole-memory command (FlashEraseAll) does to them is tracked here, next to the internal memory `mem` (id 0)
+        self.ext = {i: bytes([i & 0x7F] * 8) for i in EXT_MEM_IDS}
         self.fuses = dict(dev.get("fuses", []))
         self.locked = set(dev.get("locked", []))
         self.resource = dev_resource(dev)
@@ -533,7 +631,9 @@ class PyDev:
             else:
                 ev["status"] = 10200
         elif tag == 1:
-            self.mem[:] = b"\xff" * n
+            self.mem[:] = b"\xff" * n  # (the reference device keeps one array for the internal flash: erased for every id, as the Lean device)
+            if len(params) == 1 and params[0] in self.ext:
+                self.ext[params[0]] = b"\xff" * 8
         elif tag == 3 and len(params) == 3:
             a, ln, _ = params
             if a + ln <= n:
@@ -686,7 +786,7 @@ def gen_op(rng, cfg, dev, first, malformed=False):
     if cfg["tr"] == "serial":
         kinds += ["open"] * (6 if first else 1)
     k = rng.choice(kinds)
-    mem_id = rng.choice([0, 0, 0, 0, 1, 9, 255, 256, 0x101])
+    mem_id = rng.choice([0, 0, 0, 1, 4, 8, 9, 10, 16, 255, 0x100, 0x101, 0x110])
     op = {"op": k}
     if k in ("read_memory", "write_memory", "fill_memory", "flash_erase_region"):
         n = gen_len(rng, mp, min(size, 5000 if size < 10000 else size))
@@ -999,6 +1099,13 @@ def oracle_op(s, case, op, res, status, tx, pre_mem, pre_sb, pydev, evs, strict,
                     continue
                 if nofault and (e["status"] != 0 or e.get("final", 0) != 0):
                     viol.append((f"{k} reports success although the device answered with error status", {"device_status": e["status"] or e.get("final")}))
+    viol.extend(command_oracle(op, evs, ok, cfg))
+    if ok and k == "flash_erase_all":
+        m = op["mem_id"]
+        want = {i: (b"\xff" * 8 if i == m else v) for i, v in pydev.pre["ext"].items()}
+        if pydev.ext != want:
+            viol.append(("flash_erase_all(mem_id) reports success but the memory selected by mem_id is not the one that got erased",
+                         {"mem_id": m, "erased": [i for i in pydev.ext if pydev.ext[i] != pydev.pre["ext"][i]]}))
     # negotiated size: the device's max packet size, or McuBoot's documented fallback (32) when the query itself failed
     fallback = (not nofault) or bool(pydev.faults)
     if pydev.max_data_packet > (max(pydev.mp, 32) if fallback else pydev.mp):
@@ -1052,7 +1159,7 @@ def run_case(ck, s, drv, case, live_cache=None, strict_from=None):
     soft_hits = 0
     for i, (op, (res, st, tx, _rd)) in enumerate(zip(ops, real)):
         pre_mem, pre_sb = bytes(pydev.mem), pydev.sb
-        pydev.pre = {"image": pydev.image, "ks": pydev.ks, "fuses": dict(pydev.fuses), "keys": dict(pydev.keys)}
+        pydev.pre = {"image": pydev.image, "ks": pydev.ks, "fuses": dict(pydev.fuses), "keys": dict(pydev.keys), "ext": dict(pydev.ext)}
         ne = len(pydev.events)
         for w in tx:
             pydev.feed(w)
